@@ -41,6 +41,54 @@ theorem C19_old_export_misplaces :
     act ((exportTransform ⟨1, 0, 0, 1, 0, 0⟩ 30 20 anc).preConcat own) (10, 10) = (0, 0) := by
   decide +kernel
 
+/-! ### the canvas of an export, and when there is nothing to render -/
+
+/-- **the node's box fills the canvas**: under a caller transform `scale(s)` (the two the property
+    quantifies over are `s = 1` and `s = 2`) every point of the node's absolute layer box `[l,r]×[t,b]`
+    lands inside the canvas `[0, s·(r−l)] × [0, s·(b−t)]`, and the box's corners land on the canvas's -/
+theorem C19_box_maps_onto_canvas (s l t r b : Rat) (hs : 0 ≤ s) (q : Rat × Rat)
+    (hx : l ≤ q.1 ∧ q.1 ≤ r) (hy : t ≤ q.2 ∧ q.2 ≤ b) :
+    let e := act (⟨s, 0, 0, s, 0, 0⟩ : Transform Rat) (q.1 - l, q.2 - t)
+    0 ≤ e.1 ∧ e.1 ≤ s * (r - l) ∧ 0 ≤ e.2 ∧ e.2 ≤ s * (b - t) := by
+  simp only [act]
+  refine ⟨?_, ?_, ?_, ?_⟩
+  · have : 0 ≤ s * (q.1 - l) := mul_nonneg hs (by linarith)
+    linarith
+  · have : s * (q.1 - l) ≤ s * (r - l) := mul_le_mul_of_nonneg_left (by linarith) hs
+    linarith
+  · have : 0 ≤ s * (q.2 - t) := mul_nonneg hs (by linarith)
+    linarith
+  · have : s * (q.2 - t) ≤ s * (b - t) := mul_le_mul_of_nonneg_left (by linarith) hs
+    linarith
+
+/-- **"nothing to render" exactly for zero-sized nodes**: the export is refused iff the node's absolute
+    layer box has an empty side; otherwise the canvas is the box's size times the scale -/
+theorem C19_nothing_iff_zero_sized (l t r b s : Rat) (hlr : l ≤ r) (htb : t ≤ b) :
+    (renderNodeCanvas l t r b s = none ↔ (r - l = 0 ∨ b - t = 0)) ∧
+    (∀ c, renderNodeCanvas l t r b s = some c → c = (s * (r - l), s * (b - t))) := by
+  unfold renderNodeCanvas toNonZero
+  constructor
+  · split_ifs with h
+    · simp only [reduceCtorEq, false_iff, not_or]
+      constructor <;> linarith [h.1, h.2]
+    · simp only [true_iff]
+      by_contra hc
+      push_neg at hc
+      apply h
+      constructor
+      · rcases lt_or_eq_of_le hlr with h1 | h1
+        · exact h1
+        · exact absurd (by linarith) hc.1
+      · rcases lt_or_eq_of_le htb with h1 | h1
+        · exact h1
+        · exact absurd (by linarith) hc.2
+  · intro c hc
+    split_ifs at hc with h
+    · simpa using hc.symm
+
+example : renderNodeCanvas 10 10 10 40 2 = none ∧ renderNodeCanvas 10 10 30 40 2 = some (40, 60) := by
+  decide +kernel
+
 /-! ### lookup by id -/
 
 mutual
